@@ -179,6 +179,10 @@ class LoadScopeScheduling:
         node has no more pending items.
         """
         workload = self.assigned_work.pop(node)
+        if not self.collection_is_completed:
+            # Not all initial collections are in yet: the replacement of this
+            # node has to report a collection in its place.
+            self.registered_collections.pop(node, None)
         if not self._pending_of(workload):
             return None
 
